@@ -118,6 +118,16 @@ func main() {
 		"func internal_sync_nanotime() int64 {\n\tif gp := getg(); gp.bubble != nil {\n\t\treturn gp.bubble.now\n\t}\n\treturn nanotime()\n}",
 	}})
 
+	// 2c. a bubble's clock jumps exactly to the deadline of its next timer, so code woken by a timer reads a clock that
+	// equals the deadline - something a real clock never shows (a real timer always fires a little late). Code
+	// that re-arms a timer while "deadline.Before(now)" is false then spins for ever at one frozen instant
+	// (quic-go's connection run loop does: loss-detection and idle deadlines). The clock lands one nanosecond
+	// past the deadline instead.
+	do("runtime/synctest.go", []patch{{
+		"\t\tbubble.now = next\n",
+		"\t\tbubble.now = next + 1\n",
+	}})
+
 	// 3. added file: the streams, their seeding entry point, and a
 	// goroutine-inherited tag (reuses the pprof label slot, which the
 	// runtime copies from parent to child goroutine).
